@@ -165,6 +165,17 @@ def extract(ctx):
             elif isinstance(s, ast.Return):
                 mflat.append(('return', ast.unparse(s)))
 
+    # --- kwargs.pop(name, default) in flatten() / merge()
+    fn_defaults = []
+    for fname, f in (('flatten', fn), ('merge', mfn)):
+        if f is None:
+            continue
+        for n in ast.walk(f):
+            if (isinstance(n, ast.Call) and isinstance(n.func, ast.Attribute) and n.func.attr == 'pop'
+                    and ast.unparse(n.func.value) == 'kwargs' and len(n.args) == 2
+                    and isinstance(n.args[0], ast.Constant)):
+                fn_defaults.append((fname, n.args[0].value, ast.unparse(n.args[1])))
+
     # --- _AbstractIterable.__subclasshook__: excluded classes
     excluded = []
     hook = _method(_cls(core, '_AbstractIterable'), '__subclasshook__')
@@ -194,4 +205,5 @@ def extract(ctx):
               ('redFoldBodies', T3, loops),
               ('redFlattenFn', 'List (String × String)', flat),
               ('redMergeFn', 'List (String × String)', mflat),
+              ('redFnDefaults', T3, fn_defaults),
               ('redAbsIterExcluded', 'List String', excluded)])]
